@@ -85,16 +85,20 @@ let () =
          | "IVEC" -> let n = ni () in let a = List.init n (fun _ -> nf ()) in let b = List.init n (fun _ -> nf ()) in let l = nf () in
            Printf.printf "%s\n" (String.concat " " (List.map hex (vec_interp fops a b l)))
          | "OBJ" -> let p0 = nf () in let c0 = nf () in
-           let ops = ref [] in
+           (* the history is run one operation at a time (pv_run on singleton lists; pv_run_app in the proofs) so that the
+              "X" operation (wrap both values with the parameters in force, then distance) can read the state in force *)
+           let st = ref { pv_P = p0; pv_c = c0 } in
+           let outs = ref [] in
+           let step o = let (s', out) = pv_run fops !st [o] in st := s'; outs := List.concat out :: !outs in
            while !p < Array.length w do
              (match next () with
-              | "M" -> let pp = nf () in let c = nf () in ops := PvModify (pp, c) :: !ops
-              | "W" -> let x = nf () in ops := PvWrap x :: !ops
-              | "D" -> let a = nf () in let b = nf () in ops := PvDist2 (a, b) :: !ops
+              | "M" -> let pp = nf () in let c = nf () in step (PvModify (pp, c))
+              | "W" -> let x = nf () in step (PvWrap x)
+              | "D" -> let a = nf () in let b = nf () in step (PvDist2 (a, b))
+              | "X" -> let a = nf () in let b = nf () in outs := pv_wrapped_dist2 fops !st a b :: !outs
               | _ -> ())
            done;
-           let (_, outs) = pv_run fops { pv_P = p0; pv_c = c0 } (List.rev !ops) in
-           let fl = List.concat outs in
+           let fl = List.concat (List.rev !outs) in
            Printf.printf "%s\n" (if fl = [] then "-" else String.concat " " (List.map hex fl))
          | _ -> Printf.printf "?\n")
       end
